@@ -9,7 +9,7 @@ From Rosed Require Import Base.Cls Base.Res Base.ListX Base.Utf8 Base.Str Base.I
      Inst.Go Inst.GoUpper.
 Extraction Language OCaml.
 Separate Extraction
-  Inst.Go.GoClassifier Inst.GoUpper.GoUpper Inst.Go.bits Inst.Go.class_of_tabs gen.Tables.go_tables
+  Inst.Go.GoClassifier Inst.Go.class_of_bits Inst.Go.go_class_of Inst.GoUpper.GoUpper Inst.Go.bits Inst.Go.class_of_tabs gen.Tables.go_tables
   Gem.Segment.clusters Gem.Segment.split_runes Gem.Break.split
   Base.Utf8.decode Base.Utf8.encode Base.Utf8.valid_utf8
   Model.Hist.run_hist Model.Hist.observe Model.Hist.run_op
